@@ -553,6 +553,12 @@ func (c *Ctx) valEq(a, b Val, st *State) string {
 		if y, ok := b.(Scalar); ok {
 			return "(= " + x.T + " " + y.T + ")"
 		}
+		if x.S.K == "str" {
+			// interned symbolic name against a string constant
+			if id, ok := c.strID(b); ok {
+				return fmt.Sprintf("(= %s %d)", x.T, id)
+			}
+		}
 	case SliceV:
 		if y, ok := b.(SliceV); ok {
 			return c.strCompare(token.EQL, x, y, st).(Scalar).T
